@@ -27,7 +27,26 @@ def err_len(bpt):
     return 1 + math.floor(bpt)
 
 
+def inputs_absent_gaps(bpt):
+    """
+    10 bp/texel: a mapped scaffold plus one or two sub-texel scaffolds that hold gaps of different kinds (three 1-bp
+    contigs): absent from the map or present, their neighbours must keep exactly their own gaps
+    """
+    out = []
+    for style in ("tpf", "fasta"):
+        a = ("scaffold_1", pv.scaffold_rows(style, "scaffold_1", (25, 12), ((("G", 5, "scaffold"),),), (1, 1)))
+        for g1, g2 in itertools.permutations([("G", 2, "contig"), ("G", 3, "scaffold"), ("G", 1, "centromere")], 2):
+            b = ("scaffold_2", pv.scaffold_rows(style, "scaffold_2", (1, 1, 1), ((g1,), (g2,)), (1, 1, 1)))
+            c = ("scaffold_3", pv.scaffold_rows(style, "scaffold_3", (2, 1), ((g2,),), (1, 1)))
+            out.append((a, b))
+            out.append((b, a))
+            out.append((a, b, c))
+    return out
+
+
 def inputs_for(bpt, tier):
+    if bpt == 10.0:
+        return inputs_absent_gaps(bpt)
     e = err_len(bpt)
     full = tier == "thorough"
     heads = [e, 4 * e + 2] if not full else [1, e, 4 * e + 2]
@@ -131,6 +150,8 @@ class C07(Check):
         for bpt in self.bpts(tier):
             for c in range(chunks):
                 out.append(("pv", bpt, c, chunks, tier))
+        for c in range(4):
+            out.append(("pv", 10.0, c, 4, tier))  # the absent-scaffolds-with-gaps family only
         for bpt in (1.0, 2.5):
             for i in range(5):
                 for variant in (0, 1):
@@ -183,7 +204,7 @@ class C07(Check):
             if i % chunks != chunk:
                 continue
             two = len(inp) > 1
-            for pieces in pv.pv_piece_lists(inp, bpt, max_cuts=1 if two else 2, max_pieces=3, margin=(2 * e + 2) if full else (e + 2)):
+            for pieces in pv.pv_piece_lists(inp, bpt, max_cuts=(0 if bpt == 10.0 else 1) if two else 2, max_pieces=3, margin=(2 * e + 2) if full else (e + 2)):
                 n = len(pieces)
                 arrs = pv.arrangements(n) if n < 3 else pv.arrangements_reduced(n)
                 for arr in arrs:
@@ -204,3 +225,4 @@ class C07(Check):
 CHECK = C07()
 # scope added in later rounds, kept in the evidence text
 CHECK.rule += ' Tagged scripts (the C01 tag scope) under the same gap oracle.'
+CHECK.rule += ' At 10 bp/texel: a mapped scaffold plus sub-texel scaffolds (three 1-bp contigs, gaps of two different kinds, every ordered pair from {2 contig, 3 scaffold, 1 centromere}) present in or absent from the map.'
